@@ -78,6 +78,56 @@ let read_impl_array r = let n = next_int r in let d = next_int r in List.init n 
 
 let finite_tokens (r : cursor) : xnum list = List.map xnum_of_token (rest r)
 
+(* ---------- Pruner (one run) ---------- *)
+let judge_prune id (l : q list list) (d : int) (r : cursor) : bool * string =
+    let b = next_int r in let arr = read_impl_array r in
+    if not (is_perm arr l) then oracle_fail "pruner_subset" "Pruner" "array is not a permutation of the input";
+    let kept = take b arr in
+    (* the LP phase removes only vectors below the kept surface, up to lp_solve's accuracy *)
+    let tol = q_add (dom_tol l (List.length l)) (q_of_ints 1 1000000) in
+    if kept = [] && l <> [] then oracle_fail "pruner_envelope" "Pruner" "kept set is empty";
+    List.iter (fun p -> if not (env_geb tol kept l p) then
+                  oracle_fail "pruner_envelope" "Pruner" ("env dropped at b=" ^ str_vec p ^ ": kept " ^ string_of_q (env kept p) ^ " < input " ^ string_of_q (env l p))) (grid id d);
+    (* kept vectors are pairwise non-dominating after extractDominated *)
+    if separated l then
+      List.iteri (fun i u -> List.iteri (fun j v -> if i <> j && dominates u v then
+                                             oracle_fail "pruner_parsimonious" "Pruner" "kept vector dominates another kept vector") kept) kept;
+    (* C: the model runs with the witness LP answered by the transcript of the real WitnessLP
+       (recorded by the harness on the same sequence of library calls) *)
+    let nlog = next_int r in
+    let log = List.init nlog (fun _ ->
+        let n = next_int r in let v = read_vec r d in let f = next_int r = 1 in
+        let w = if f then Some (read_vec r d) else None in (n, v, w)) in
+    (* witnesses must be points of the simplex (up to lp_solve accuracy) where v beats the rows *)
+    let remaining = ref log in
+    let missing = ref false in
+    let ill = ref false in
+    let oracle rows v =
+      match !remaining with
+      | (n, v', w) :: tl when n = List.length rows && vec_eq v v' -> remaining := tl; w
+      | _ -> missing := true; None in
+    let (mk0, mr0) = extractDominated l in
+    (match prunerV oracle (nat_of_int d) l with
+     | None -> disagree "pruner_terminates" "Pruner" "model ran out of fuel"
+     | Some ((mk, mr), mr0') ->
+       if !missing then disagree "pruner_transcript" "Pruner" "the model asked the LP a question the implementation did not ask";
+       (* decisions taken at a witness are floating-point on the C++ side: flag near-ties *)
+       List.iter (fun (n, _, w) -> match w with
+           | None -> ()
+           | Some b ->
+             let rows = take n mk in
+             let rest = List.filter (fun u -> not (List.exists (vec_eq u) rows)) mk0 in
+             let scores = List.sort (fun x y -> q_cmp y x) (List.map (fun u -> dot b u) rest) in
+             (match scores with
+              | x :: y :: _ -> if not (q_eq x y) && q_lt (q_sub x y) (q_of_ints 1 1000000000) then ill := true
+              | _ -> ())) log;
+       if not !ill then begin
+         if List.length mk <> b then disagree "Pruner" "Pruner" (Printf.sprintf "kept count impl %d model %d" b (List.length mk));
+         if not (vecs_eq (mk @ mr @ mr0') arr) then disagree "Pruner" "Pruner" ("order differs: impl " ^ str_vecs arr ^ " model " ^ str_vecs (mk @ mr @ mr0'))
+       end);
+    ignore mr0;
+    (b < List.length mk0, Printf.sprintf "prune.d%d%s" d (if !ill then ".ill" else ""))
+
 (* ---------- judge ---------- *)
 let judge id (c : cursor) (r : cursor) : bool * string =
   let kind = next c in
@@ -173,53 +223,14 @@ let judge id (c : cursor) (r : cursor) : bool * string =
   | "prune" ->
     check_abnormal r "Pruner";
     let (l, d) = read_vecs c in
-    let b = next_int r in let arr = read_impl_array r in
-    if not (is_perm arr l) then oracle_fail "pruner_subset" "Pruner" "array is not a permutation of the input";
-    let kept = take b arr in
-    (* the LP phase removes only vectors below the kept surface, up to lp_solve's accuracy *)
-    let tol = q_add (dom_tol l (List.length l)) (q_of_ints 1 1000000) in
-    if kept = [] && l <> [] then oracle_fail "pruner_envelope" "Pruner" "kept set is empty";
-    List.iter (fun p -> if not (env_geb tol kept l p) then
-                  oracle_fail "pruner_envelope" "Pruner" ("env dropped at b=" ^ str_vec p ^ ": kept " ^ string_of_q (env kept p) ^ " < input " ^ string_of_q (env l p))) (grid id d);
-    (* kept vectors are pairwise non-dominating after extractDominated *)
-    if separated l then
-      List.iteri (fun i u -> List.iteri (fun j v -> if i <> j && dominates u v then
-                                             oracle_fail "pruner_parsimonious" "Pruner" "kept vector dominates another kept vector") kept) kept;
-    (* C: the model runs with the witness LP answered by the transcript of the real WitnessLP
-       (recorded by the harness on the same sequence of library calls) *)
-    let nlog = next_int r in
-    let log = List.init nlog (fun _ ->
-        let n = next_int r in let v = read_vec r d in let f = next_int r = 1 in
-        let w = if f then Some (read_vec r d) else None in (n, v, w)) in
-    (* witnesses must be points of the simplex (up to lp_solve accuracy) where v beats the rows *)
-    let remaining = ref log in
-    let missing = ref false in
-    let ill = ref false in
-    let oracle rows v =
-      match !remaining with
-      | (n, v', w) :: tl when n = List.length rows && vec_eq v v' -> remaining := tl; w
-      | _ -> missing := true; None in
-    let (mk0, mr0) = extractDominated l in
-    (match prunerV oracle (nat_of_int d) l with
-     | None -> disagree "pruner_terminates" "Pruner" "model ran out of fuel"
-     | Some ((mk, mr), mr0') ->
-       if !missing then disagree "pruner_transcript" "Pruner" "the model asked the LP a question the implementation did not ask";
-       (* decisions taken at a witness are floating-point on the C++ side: flag near-ties *)
-       List.iter (fun (n, _, w) -> match w with
-           | None -> ()
-           | Some b ->
-             let rows = take n mk in
-             let rest = List.filter (fun u -> not (List.exists (vec_eq u) rows)) mk0 in
-             let scores = List.sort (fun x y -> q_cmp y x) (List.map (fun u -> dot b u) rest) in
-             (match scores with
-              | x :: y :: _ -> if not (q_eq x y) && q_lt (q_sub x y) (q_of_ints 1 1000000000) then ill := true
-              | _ -> ())) log;
-       if not !ill then begin
-         if List.length mk <> b then disagree "Pruner" "Pruner" (Printf.sprintf "kept count impl %d model %d" b (List.length mk));
-         if not (vecs_eq (mk @ mr @ mr0') arr) then disagree "Pruner" "Pruner" ("order differs: impl " ^ str_vecs arr ^ " model " ^ str_vecs (mk @ mr @ mr0'))
-       end);
-    ignore mr0;
-    (b < List.length mk0, Printf.sprintf "prune.d%d%s" d (if !ill then ".ill" else ""))
+    judge_prune id l d r
+  | "prune2" ->
+    check_abnormal r "Pruner";
+    let (l1, d) = read_vecs c in
+    let (l2, _) = read_vecs c in
+    let (nt1, _) = judge_prune id l1 d r in
+    let (nt2, _) = judge_prune (id + 1) l2 d r in
+    (nt1 || nt2, Printf.sprintf "prune2.d%d" d)
   | "saw" | "lpi" ->
     let site = if kind = "saw" then "sawtoothInterpolation" else "LPInterpolation" in
     let s_ = next_int c in let a_ = next_int c in
@@ -279,7 +290,10 @@ let judge id (c : cursor) (r : cursor) : bool * string =
           else "interp_weights_ok"
         end else "interp_weights_ok"
       end in
-    if not (weights_ok_tolb tolw query pts w) then
+    (* sawtoothInterpolation computes point - b * (point[s]/b[s]) in floating point: the entry that
+       should be exactly 0 may come out as -1 ulp; such rounding residues are not violations *)
+    let w_chk = if kind = "saw" then List.map (fun x -> if q_lt x q_zero && q_le (q_sub q_zero tolw) x then q_zero else x) w else w in
+    if not (weights_ok_tolb tolw query pts w_chk) then
       oracle_fail (weight_clause ()) site ("weights " ^ str_vec w ^ " are not non-negative weights over corners++points reconstructing the query");
     if not (value_le_weightedb tolv value w cv vals) then
       oracle_fail "interp_value_le_weighted" site ("value " ^ string_of_q value ^ " exceeds the weighted sum " ^ string_of_q (weighted_value w cv vals));
@@ -305,8 +319,8 @@ let judge id (c : cursor) (r : cursor) : bool * string =
       (q_lt min_cf q_zero && q_le v_saw bv, if q_lt min_cf q_zero then (if q_le v_saw bv then "saw.point" else "saw.basic") else "saw.nopoint")
     end else begin
       (* the LP can do at least as well as any single stored point and as the corners alone *)
-      if k >= 2 && not (q_le value (q_add v_saw tolv)) then
-        oracle_fail "interp_lp_opt" site ("value " ^ string_of_q value ^ " is above the single-point bound " ^ string_of_q v_saw);
+      if k >= 1 && not (q_le value (q_add v_saw tolv)) then
+        oracle_fail (if k = 1 then "interp_shortcut_opt" else "interp_lp_opt") site ("value " ^ string_of_q value ^ " is above the single-point bound " ^ string_of_q v_saw);
       (* C: the model runs with the LP oracle answering the implementation's own coefficients *)
       let c_impl = List.map (fun i -> List.nth w (s_ + i)) compat in
       (match lPInterpolation (fun _ _ _ -> Some c_impl) query ubq pts vals with
